@@ -86,8 +86,16 @@ def compose(parts, header=(), final_newline=True):
     return "\n".join(lines) + ("\n" if final_newline else "")
 
 
+def chance(draw, k, n):
+    """True with probability k/n (sampled_from, because Hypothesis' integers() favour the boundary values)."""
+    return draw(st.sampled_from([True] * k + [False] * (n - k)))
+
+
+ERROR_WEIGHTS = {"prs": 3, "tmp": 3, "tmp+prs": 1, "prs-notree": 1, "tmp-notree": 1}
+
+
 @st.composite
-def content(draw, errors="some", noqa="some", inline=False, max_parts=4, classes=None):
+def content(draw, errors="some", noqa="some", inline=False, max_parts=4, classes=None, error_weights=None):
     """-> (sql, piece names, header kind).
 
     errors: "none" | "some" (about half the files carry a PRS/TMP piece) | "always"
@@ -105,7 +113,8 @@ def content(draw, errors="some", noqa="some", inline=False, max_parts=4, classes
     if want_err is None:
         want_err = draw(st.booleans())
     if want_err:
-        ecls = [c for c in ERROR_CLASSES if templater_jinja or c not in JINJA_ONLY]
+        ecls = [c for c, w in (error_weights or ERROR_WEIGHTS).items() for _ in range(w)
+                if templater_jinja or c not in JINJA_ONLY]
         for _ in range(draw(st.sampled_from([1, 1, 1, 2]))):
             e = draw(st.sampled_from(BY_CLASS[draw(st.sampled_from(ecls))]))
             parts.insert(draw(st.integers(0, len(parts))), e)
@@ -123,14 +132,14 @@ def content(draw, errors="some", noqa="some", inline=False, max_parts=4, classes
         out.append((p, form))
     header = []
     hkind = None
-    if noqa != "none" and draw(st.integers(0, 9)) == 0:
+    if noqa != "none" and chance(draw, 1, 10):
         hkind = draw(st.sampled_from(["disable=all", "disable=PRS", "disable=PRS,TMP", "disable=LT01"]))
         header.append("-- noqa: " + hkind)
-    if inline and draw(st.integers(0, 3)) == 0:
+    if inline and chance(draw, 1, 4):
         d = draw(st.sampled_from(INLINE_DIRECTIVES))
         header.append("-- sqlfluff:" + d)
         hkind = (hkind + "+" if hkind else "") + "inline:" + d
-    sql = compose(out, header, final_newline=draw(st.integers(0, 7)) != 0)
+    sql = compose(out, header, final_newline=not chance(draw, 1, 8))
     names = [p + ("" if f is None else "+noqa:" + (f or "all")) for p, f in out]
     return sql, names, hkind, templater_jinja
 
@@ -166,19 +175,19 @@ def core_cfg(draw, warnings=True, ignore=True, feu=False, runaway=False, disable
     e = draw(st.sampled_from(EXCLUDES))
     if e:
         cfg["exclude_rules"] = e
-    if warnings:
-        w = draw(st.sampled_from(WARNINGS))
+    if warnings:  # True = default pool, or an explicit pool
+        w = draw(st.sampled_from(WARNINGS if warnings is True else list(warnings)))
         if w:
             cfg["warnings"] = w
     if ignore:
-        i = draw(st.sampled_from(IGNORES))
+        i = draw(st.sampled_from(IGNORES if ignore is True else list(ignore)))
         if i:
             cfg["ignore"] = i
-    if feu and draw(st.integers(0, 5)) == 0:
+    if feu and chance(draw, 1, 8):
         cfg["fix_even_unparsable"] = True
-    if runaway and draw(st.integers(0, 3)) == 0:
+    if runaway and chance(draw, 1, 4):
         cfg["runaway_limit"] = draw(st.sampled_from([1, 2]))
-    if disable_noqa and draw(st.integers(0, 9)) == 0:
+    if disable_noqa and chance(draw, 1, 12):
         cfg["disable_noqa"] = True
     return cfg
 
@@ -290,13 +299,39 @@ def cli_opts(case):
     return args
 
 
+class CliJob:
+    """``python -m sqlfluff <args>`` started in the background (cwd = project directory); ``result()`` waits.
+    Several jobs of one case run side by side: they are independent processes working on separate project copies."""
+
+    def __init__(self, args, cwd, stdin=None):
+        if isinstance(stdin, str):
+            stdin = stdin.encode("utf-8")
+        data = stdin or b""
+        assert len(data) < 60000, "stdin payload must fit in the pipe buffer"
+        r, w = os.pipe()
+        try:
+            os.write(w, data)
+        finally:
+            os.close(w)
+        try:
+            self.p = subprocess.Popen([sys.executable, "-m", "sqlfluff"] + list(args), cwd=cwd, stdin=r,
+                                      stdout=subprocess.PIPE, stderr=subprocess.PIPE, env=dict(os.environ))
+        finally:
+            os.close(r)
+
+    def result(self, timeout=300):
+        try:
+            so, se = self.p.communicate(timeout=timeout)
+        except subprocess.TimeoutExpired:
+            self.p.kill()
+            so, se = self.p.communicate()
+            return -9, so.decode("utf-8", "replace"), se.decode("utf-8", "replace")
+        return self.p.returncode, so.decode("utf-8", "replace"), se.decode("utf-8", "replace")
+
+
 def run_cli(args, cwd, stdin=None, timeout=300):
     """Run ``python -m sqlfluff <args>`` with cwd; stdin is bytes/str or None.  -> (rc, stdout, stderr) as text."""
-    if isinstance(stdin, str):
-        stdin = stdin.encode("utf-8")
-    p = subprocess.run([sys.executable, "-m", "sqlfluff"] + list(args), cwd=cwd, input=stdin if stdin is not None else b"",
-                       stdout=subprocess.PIPE, stderr=subprocess.PIPE, env=dict(os.environ), timeout=timeout)
-    return p.returncode, p.stdout.decode("utf-8", "replace"), p.stderr.decode("utf-8", "replace")
+    return CliJob(args, cwd, stdin).result(timeout)
 
 
 def run_cli_tty(args, cwd, keys=b"y", timeout=300):
@@ -381,14 +416,14 @@ def vrec(v):
             "name": getattr(getattr(v, "rule", None), "name", "") or "", "fixable": bool(v.fixable)}
 
 
-def ground_truth(case):
+def ground_truth(case, **extra):
     """Unfiltered violations of the file: in-process lint_paths(fix=True) *without* applying, noqa disabled, read with
     filter_ignore=False / filter_warning=False so that ignore and warnings play no role.  lint_paths (not lint_string)
     so that in-file directives act as they do for a file.  -> dict(violations=[vrec], tree=bool, fixed=str|None)"""
     from sqlfluff.core import Linter
 
     with Project(case, "gt") as pr:
-        lnt = Linter(config=root_config(pr, disable_noqa=True))
+        lnt = Linter(config=root_config(pr, disable_noqa=True, **extra))
         res = lnt.lint_paths((pr.path,), fix=True, apply_fixes=False)
         files = res.paths[0].files
         if not files:
@@ -496,6 +531,31 @@ def exit_code_model(command, violations, eff, directives, nofail=False):
         elif blocked or not v["fixable"]:
             return 1
     return 0
+
+
+def tp_state(violations, eff, directives):
+    tp = [v for v in violations if is_tmp_prs(v)]
+    if not tp:
+        return "none"
+    codes = "+".join(sorted({v["code"] for v in tp}))
+    kinds = {suppression(v, eff, directives) for v in tp}
+    if None in kinds:
+        return "live:" + codes
+    return "suppressed(%s):%s" % ("+".join(sorted(kinds)), codes)
+
+
+def lint_state(violations, eff, directives):
+    lint = [v for v in violations if v["code"] not in ("TMP", "PRS", "LXR")]
+    if not lint:
+        return "none"
+    live = [v for v in lint if suppression(v, eff, directives) is None]
+    if live:
+        return "live-unfixable" if any(not v["fixable"] for v in live) else "live-fixable"
+    kinds = {suppression(v, eff, directives) for v in lint}
+    if "warning" in kinds:
+        fixable_warning = any(v["fixable"] for v in lint if suppression(v, eff, directives) == "warning")
+        return "warning-only" + ("(fixable)" if fixable_warning else "")
+    return "suppressed-only(%s)" % "+".join(sorted(kinds))
 
 
 def selftest_models():
